@@ -255,9 +255,10 @@ PROPS['C10'] = dict(
 PROPS['C11'] = dict(
     claim='Per-term identities of the real Term::operator()(z) / operator()(tau,beta) code (both overflow-avoiding branches) with exp as an '
           'uninterpreted positive function plus two listed functional-equation instances, and part-level conjugation symmetry / sign of '
-          'Im G_ii on the real GreensFunctionPart code for all sparsity patterns up to 2x2.',
+          'Im G_ii on the real GreensFunctionPart code for all sparsity patterns up to 2x2.  Floating-point range of the imaginary-time formulas: for every '
+          'beta > 0, tau in [0,beta] and pole, no argument handed to exp() by the term code exceeds 709 (no overflow however low the temperature).',
     bounds={Q: 'one term with symbolic complex residue, pole, z, tau in [0,beta]; parts up to 2x2 (all pattern pairs)', T: 'same'},
-    assumptions=['double read as exact real', 'E(x) > 0, E(0) = 1, E(bP)E(-bP) = 1, E((b-t)P)E(-bP) = E(-tP) (lemma instances)',
+    assumptions=['double read as exact real (except the exp-argument range obligation, which is about the double range)', 'E(x) > 0, E(0) = 1, E(bP)E(-bP) = 1, E((b-t)P)E(-bP) = E(-tP) (lemma instances)',
                  'a part / Green function is the sum of its terms (composition, mathematical step)'],
     outside=['the Matsubara-sum form of the tau/frequency duality (replaced by the per-term closed-form pair)',
              'G_ii(beta-) = -<n_i> (needs the C09 weight relation across objects; mathematical step)', 'z G(z) -> delta_ij (follows from C01 + CAR)'],
@@ -358,7 +359,7 @@ PROPS['C02'] = dict(
                 validate=[{'perm': 2, 'freq': 1, 'P1': '1/3', 'P2': '-1/3', 'P3': '1/5'}]) for t in range(4)] +
           [
            dict(name='2pgftable', harness='h_2pgftable', defs=[], split={'quad': R(16), 'clear': R(2), 'beta': [2]}, max_loop=200000, job_timeout=300,
-                witnesses=['done', 'vanishing_component', 'non_vanishing_component'],
+                witnesses=['done', 'vanishing_component', 'non_vanishing_component', 'tolerances_checked'],
                 validate=[{'quad': 5, 'clear': 0, 'beta': 2, 'w0_0': '1/10', 'w1_0': '2/5', 'w2_0': '3/10', 'w3_0': '1/5'},
                           {'quad': 3, 'clear': 1, 'beta': 2, 'w0_0': '1/10', 'w1_0': '2/5', 'w2_0': '3/10', 'w3_0': '1/5'}]),
            dict(name='2pgftable_symbeta', harness='h_2pgftable', defs=[], split={'quad': [0, 3, 5, 6, 9, 10, 15], 'clear': R(2)}, max_loop=200000, tiers=[T], job_timeout=1500,
@@ -534,3 +535,9 @@ PROPS['C12'] = dict(
            dict(name='wick_m1_vertex_symbeta', harness='h_wick', defs=['MODEL=1'], split={'mode': [1], 'quad': [5, 6, 9, 10], 'freq': [0, 4]}, tiers=[T],
                 max_loop=200000, query_timeout_ms=300000, witnesses=['vertex_checked'])],
 )
+
+# Wick's theorem at coinciding frequencies rests on the resonance tolerance reaching the parts (floating-point noise between degenerate levels)
+PROPS['C12']['units'] += [dict(u, name='c02_' + u['name'], split={'quad': [5, 6, 10], 'clear': [0], 'beta': [2]}, validate=[])
+                          for u in PROPS['C02']['units'] if u['name'] == '2pgftable']
+PROPS['C12']['claim'] += ('  Unit c02_2pgftable: the resonance / coefficient tolerances set on a two-particle component reach every part it creates (the vertex of a model '
+                          'with degenerate levels is computed from eigenvalues that agree only up to rounding; the resonance tolerance is what absorbs that).')
